@@ -285,9 +285,9 @@ def choosePair (n : Nat) (hs : List (Option Header)) : Except MErr (Nat Ã— Nat Ã
     | some (_, s) => if s < p.2.seq then some (p.1, p.2.seq) else acc) none
   match low, high with
   | some (low, _), some (high, highSeq) =>
-    if (high + n - low) % n â‰¤ n - 2 then
+    if (high + n - low) % n + 3 â‰¤ n then
       .ok ((high + 1) % n, (high + 2) % n, seqNext highSeq, seqNext (seqNext highSeq))
-    else if (high + n - low) % n = n - 1 then
+    else if (high + n - low) % n + 2 = n then
       let fw := (fallbackSlot hs).getD low
       if fw = low then .ok (high, (high + 1) % n, highSeq, seqNext highSeq)
       else .ok ((high + 1) % n, (high + 2) % n, seqNext highSeq, seqNext (seqNext highSeq))
@@ -296,7 +296,7 @@ def choosePair (n : Nat) (hs : List (Option Header)) : Except MErr (Nat Ã— Nat Ã
       if (high + 1) % n = fw âˆ¨ (high + 2) % n = fw then
         let first := (high + n - 1) % n
         match hs.getD first none with
-        | none => .error .panic
+        | none => .ok (first, high, highSeq - 1, highSeq)
         | some h => .ok (first, high, h.seq, highSeq)
       else .ok ((high + 1) % n, (high + 2) % n, seqNext highSeq, seqNext (seqNext highSeq))
   | _, _ => .ok (0, 1, 0, 1)
@@ -309,8 +309,8 @@ def allocSlotpair (n slotSize : Nat) : M (Slot Ã— Slot) := do
   | .ok (a, b, sa, sb) =>
     let first : Slot := { idx := a, size := slotSize }
     let second : Slot := { idx := b, size := slotSize }
-    first.clear
     second.clear
+    first.clear
     first.writeSeqNo sa
     second.writeSeqNo sb
     pure (first, second)
